@@ -4576,7 +4576,14 @@ void dtw_dba_ptrs(seq_t **ptrs, idx_t nb_ptrs, idx_t* lengths,
     seq_t avg_step;
     idx_t path_length;
 
-    idx_t wps_length = dtw_settings_wps_length(t, max_length, settings);
+    // The compact warping paths array can be wider for a shorter series (larger length difference)
+    idx_t wps_length = 0;
+    for (r_idx=0; r_idx<nb_ptrs; r_idx++) {
+        idx_t cur_wps_length = dtw_settings_wps_length(t, lengths[r_idx], settings);
+        if (cur_wps_length > wps_length) {
+            wps_length = cur_wps_length;
+        }
+    }
     wps = (seq_t *)malloc(wps_length * sizeof(seq_t));
 
     for (pi=0; pi<t; pi++) {
